@@ -7,16 +7,7 @@ import sys
 sys.path.insert(0, os.path.dirname(os.path.dirname(os.path.abspath(__file__))))
 from vcheck import props  # noqa: E402
 
-NA = {
-    "C11": "Montgomery mul_redc/square_redc: the property is the value identity a*b*R^-1 mod m over straight-line limb "
-           "arithmetic; no structural clause is a necessary condition (carry thresholds are deliberately conservative, "
-           "preconditions are debug_assert only); static analysis without running or solving cannot decide it",
-    "C12": "GCD/LCM/Lehmer: correctness lives in Jebelean's exactness inequalities and sign bookkeeping over run-time "
-           "quotient sequences; the one explicit panic (assert!(a >= b)) is discharged by a loop invariant, not dominance",
-    "C14": "limb-slice division kernels: value contracts under documented preconditions, slice indices depend on run-time "
-           "lengths and quotient digits; the reciprocal table is not a necessary condition (measured: single-entry "
-           "perturbations are absorbed by the Newton steps)",
-}
+NA = {}
 
 ALL = ["C%02d" % i for i in range(1, 21)]
 
@@ -32,6 +23,9 @@ TECHNIQUE = {
     "C08": "MIR dataflow: interval abstract interpretation with slice-length tracking (also of the overflow-checked MIR), guard dominance, interval of the slice length where a result is built, typestate",
     "C09": "exact finite-partition abstract evaluation of the digit closure, constant tables from compiler-evaluated consts, MIR dataflow",
     "C10": "MIR dominance: zero-modulus edges, non-zero guard predicates over the call graph, typestate",
+    "C11": "MIR dataflow over the Montgomery kernels: panic-site inventory discharged by a linear-inequality abstract domain over loop variables and the symbolic limb count N (no solver, no execution), flow-sensitive liveness of carry / borrow words",
+    "C12": "interprocedural panic-site inventory over MIR through the GCD, Lehmer and division kernels: interval abstract interpretation, linear-inequality domain over slice lengths, non-zero guard dominance",
+    "C14": "MIR dataflow over the division kernels: panic-site inventory discharged by interval abstract interpretation and a linear-inequality abstract domain over slice lengths and loop ranges, documented preconditions assumed in the callee and proved at call sites",
     "C13": "MIR dataflow: per-configuration literal-fit and return-discriminant summaries, precondition predicates checked at call sites",
     "C15": "MIR dataflow over the limb kernels: panic-site inventory with interval abstract interpretation of slice lengths and indices (release and overflow-checked MIR), flow-sensitive liveness of carry words, return-interval extremes",
     "C16": "cross-checking sibling encoder/decoder implementations: byte-order class, registry set equality, interval-derived mode tables of writer and reader, interval of hand-built RLP header bytes, const evaluation",
